@@ -158,37 +158,6 @@ Proof. apply closedb_sound. vm_compute. reflexivity. Qed.
    input of the cloned node B (id 28), although the graph owns a and a clone of it (id 33) exists *)
 Notation wit_run := (graph_clone 3 true false 19 wit_heap).
 
-Lemma wit_result : snd wit_run = Ok 38.
-Proof. vm_compute. reflexivity. Qed.
-
-Lemma wit_reach : reach (cells (hp (fst wit_run))) (next wit_heap) 38 6.
-Proof.
-  eapply reach_step with (y := 28).
-  - eapply reach_step with (y := 38).
-    + apply reach_refl.
-    + vm_compute. discriminate.
-    + vm_compute. reflexivity.
-    + vm_compute. auto 10.
-  - vm_compute. discriminate.
-  - vm_compute. reflexivity.
-  - vm_compute. auto.
-Qed.
-
-Lemma wit_owned : In 6 (owned (cells wit_heap) 2 19).
-Proof. vm_compute. auto. Qed.
-
-Lemma wit_is_value : exists v, cells wit_heap 6 = Some (CValue v).
-Proof. eexists. vm_compute. reflexivity. Qed.
-
-Lemma wit_use_before_def : In 6 (passed (fst wit_run)) /\ assoc 6 (vmap (fst wit_run)) = Some 33.
-Proof. split; vm_compute; auto. Qed.
-
-Lemma wit_rejected_without_flag : snd (graph_clone 3 false false 19 wit_heap) = Raise RuntimeError.
-Proof. vm_compute. reflexivity. Qed.
-
-(* the serialization of this clone nevertheless equals the original's (references are by name) *)
-Lemma wit_canon_equal : gcanon (cells (hp (fst wit_run))) 3 38 = gcanon (cells wit_heap) 3 19.
-Proof. vm_compute. reflexivity. Qed.
 Lemma wit_wf : dicts_wf wit_heap.
 Proof.
   intros x c Hc. change (assoc x wit_cells = Some c) in Hc. apply assoc_in in Hc. unfold wit_cells in Hc. cbn [In] in Hc.
